@@ -224,4 +224,244 @@ theorem peek_loop (pj : PJ) (i : Iter) (hl : i.lim ≤ pj.tape.size) :
         refine ⟨_, rfl, rfl, ?_⟩
         simp (disch := decide) only [iterAt_set_ne, hI]
 
+theorem peekNextTag_sim (pj : PJ) (i : Iter) (hl : i.lim ≤ pj.tape.size) (fuel : Nat) (hf : fuelFor i ≤ fuel) :
+    SimV pj.tape i (runFun goFuns goIter_PeekNextTag fuel { env := envOf "i" i, tape := pj.tape })
+      (i.peekNextTag pj) := by
+  have hbody : goIter_PeekNextTag.body = [.assign "off" (.bin .add (.v "i.off") (.v "i.addNext")),
+      .loop (firstLoop goIter_PeekNextTag.body)] := rfl
+  have h1 : exec1 goFuns fuel (.assign "off" (.bin .add (.v "i.off") (.v "i.addNext"))) ⟨envOf "i" i, pj.tape⟩ =
+      .normal ⟨(envOf "i" i).set "off" (.int ((i.off : Int) + i.addNext)), pj.tape⟩ := by
+    simp [envOf, Env.get]
+  have hI : iterAt ((envOf "i" i).set "off" (.int ((i.off : Int) + i.addNext))) "i" = some i := by
+    simp (disch := decide) only [iterAt_set_ne, iterAt_envOf]
+  have hloop : SimV pj.tape i (exec1 goFuns fuel (.loop (firstLoop goIter_PeekNextTag.body))
+      ⟨(envOf "i" i).set "off" (.int ((i.off : Int) + i.addNext)), pj.tape⟩) (i.peekNextTag pj) := by
+    unfold Iter.peekNextTag Iter.bump
+    unfold fuelFor at hf
+    by_cases ho : (i.off : Int) + i.addNext < 0
+    · obtain ⟨f, rfl⟩ : ∃ f, fuel = f + 1 := ⟨fuel - 1, by omega⟩
+      have hlim := (iterAt_get _ "i" i hI).2.2.2.2
+      simp only [String.reduceAppend] at hlim
+      rw [exec1, peekTag_body_neg _ pj.tape f _ i.lim ho (Env.get_set_self _ _ _) hlim]
+      simp [ho, SimV]
+    · simp only [ho, if_false, Res.bind_ok]
+      have := peekTag_loop pj i hl i.lim ((i.off : Int) + i.addNext).toNat fuel _ (by omega) (by omega) hI
+        (by rw [Env.get_set_self, Int.toNat_of_nonneg (by omega)])
+      exact this
+  have key : SimV pj.tape i (exec goFuns fuel goIter_PeekNextTag.body ⟨envOf "i" i, pj.tape⟩) (i.peekNextTag pj) := by
+    rw [hbody, exec, h1]
+    simp only []
+    rw [exec_cons_final _ _ _ _ _ hloop.final]
+    exact hloop
+  rw [runFun_final _ _ _ _ key.final]
+  exact key
+
+theorem peekNext_sim (pj : PJ) (i : Iter) (hl : i.lim ≤ pj.tape.size) (fuel : Nat) (hf : fuelFor i ≤ fuel) :
+    SimV pj.tape i (runFun goFuns goIter_PeekNext fuel { env := envOf "i" i, tape := pj.tape })
+      (i.peekNext pj) := by
+  have hbody : goIter_PeekNext.body = [.assign "off" (.bin .add (.v "i.off") (.v "i.addNext")),
+      .loop (firstLoop goIter_PeekNext.body)] := rfl
+  have h1 : exec1 goFuns fuel (.assign "off" (.bin .add (.v "i.off") (.v "i.addNext"))) ⟨envOf "i" i, pj.tape⟩ =
+      .normal ⟨(envOf "i" i).set "off" (.int ((i.off : Int) + i.addNext)), pj.tape⟩ := by
+    simp [envOf, Env.get]
+  have hI : iterAt ((envOf "i" i).set "off" (.int ((i.off : Int) + i.addNext))) "i" = some i := by
+    simp (disch := decide) only [iterAt_set_ne, iterAt_envOf]
+  have hloop : SimV pj.tape i (exec1 goFuns fuel (.loop (firstLoop goIter_PeekNext.body))
+      ⟨(envOf "i" i).set "off" (.int ((i.off : Int) + i.addNext)), pj.tape⟩) (i.peekNext pj) := by
+    unfold Iter.peekNext Iter.peekNextTag Iter.bump
+    unfold fuelFor at hf
+    by_cases ho : (i.off : Int) + i.addNext < 0
+    · obtain ⟨f, rfl⟩ : ∃ f, fuel = f + 1 := ⟨fuel - 1, by omega⟩
+      have hlim := (iterAt_get _ "i" i hI).2.2.2.2
+      simp only [String.reduceAppend] at hlim
+      rw [exec1, peek_body_neg _ pj.tape f _ i.lim ho (Env.get_set_self _ _ _) hlim]
+      simp [ho, SimV]
+    · simp only [ho, if_false, Res.bind_ok]
+      have := peek_loop pj i hl i.lim ((i.off : Int) + i.addNext).toNat fuel _ (by omega) (by omega) hI
+        (by rw [Env.get_set_self, Int.toNat_of_nonneg (by omega)])
+      exact this
+  have key : SimV pj.tape i (exec goFuns fuel goIter_PeekNext.body ⟨envOf "i" i, pj.tape⟩) (i.peekNext pj) := by
+    rw [hbody, exec, h1]
+    simp only []
+    rw [exec_cons_final _ _ _ _ _ hloop.final]
+    exact hloop
+  rw [runFun_final _ _ _ _ key.final]
+  exact key
+
+/-! ## Advance -/
+
+/-- outcome of a NOP-skipping loop against its functional reading: a live word leaves the loop normally (`break`),
+    a dead exit returns `ret` from inside the loop -/
+def LoopSim (tape : Array UInt64) (ret : List Val) (o : Out) (r : Res (Iter × Bool)) : Prop :=
+  match r with
+  | .ok (j', true) => ∃ s, o = .normal s ∧ s.tape = tape ∧ iterAt s.env "i" = some j' ∧ j'.cur.toNat < 2^56
+  | .ok (j', false) => ∃ s, o = .ret s ret ∧ s.tape = tape ∧ iterAt s.env "i" = some j'
+  | .panic => o = .panic
+  | _ => False
+
+theorem advance_body (e : Env) (tape : Array UInt64) (f : Nat) (j : Iter) (hI : iterAt e "i" = some j)
+    (hsz : j.lim ≤ tape.size) :
+    exec goFuns (f + 1) (firstLoop goIter_Advance.body) ⟨e, tape⟩ =
+      if h : j.off ≥ j.lim then .ret ⟨(e.set "i.addNext" (.int 0)).set "i.t" (.u8 0), tape⟩ [.u8 0] else
+        let v := tape[j.off]'(by omega)
+        let e1 := (((e.set "v" (.u64 v)).set "i.t" (.u8 (tagOf v))).set "i.off" (.int (j.off + 1))).set "i.cur"
+          (.u64 (payloadOf v))
+        if tagOf v = tagNop then
+          if payloadOf v = 0 then
+            .ret ⟨setIter e1 "i" (Iter.moveToEnd { j with off := j.off + 1, cur := payloadOf v, t := tagOf v }), tape⟩
+              [.u8 0]
+          else .cont ⟨e1.set "i.off" (.int ((j.off : Int) + 1 + (((payloadOf v).toNat : Int) - 1))), tape⟩
+        else .brk ⟨e1, tape⟩ := by
+  obtain ⟨h1, h2, h3, h4, h5⟩ := iterAt_get_i _ _ hI
+  simp only [goIter_Advance, firstLoop]
+  by_cases h : j.off ≥ j.lim
+  · simp [h1, h2, h3, h4, h5, h]
+  · have hlt : j.off < j.lim := by omega
+    have hr : tape[j.off]? = some (tape[j.off]'(by omega)) := by simp
+    simp only [dif_neg h]
+    generalize tape[j.off] = v at hr ⊢
+    have ht : (v >>> 56).toUInt8 = tagOf v := rfl
+    have hp : v &&& 72057594037927935 = payloadOf v := rfl
+    simp only [tagNop]
+    by_cases hn : tagOf v = 78
+    · by_cases hz : payloadOf v = 0
+      · simp [h1, h2, h3, h4, h5, h, hlt, hr, ht, hp, hz, hn, goFuns, goIter_moveToEnd, Env.set, Env.get, setIter,
+          Iter.moveToEnd, tagEnd]
+      · have hb : (payloadOf v == 0) = false := by simp [hz]
+        simp [h1, h2, h3, h4, h5, h, hlt, hr, ht, hp, toInt64_payload, hz, hb, hn]
+    · have hb : (tagOf v == 78) = false := by simp [hn]
+      simp [h1, h2, h3, h4, h5, h, hlt, hr, ht, hp, hb, hn]
+
+theorem advance_loop (pj : PJ) : ∀ (n : Nat) (j : Iter) (fuel : Nat) (e : Env), j.lim - j.off ≤ n → n + 1 < fuel →
+    j.lim ≤ pj.tape.size → iterAt e "i" = some j →
+    LoopSim pj.tape [.u8 0] (exec1 goFuns fuel (.loop (firstLoop goIter_Advance.body)) ⟨e, pj.tape⟩)
+      (advanceLoopG pj j) := by
+  intro n
+  induction n with
+  | zero =>
+    intro j fuel e hn hf hsz hI
+    obtain ⟨f, rfl⟩ : ∃ f, fuel = f + 2 := ⟨fuel - 2, by omega⟩
+    obtain ⟨h1, h2, h3, h4, h5⟩ := iterAt_get_i _ _ hI
+    rw [exec1, advance_body e pj.tape f j hI hsz, advanceLoopG]
+    have h : j.off ≥ j.lim := by omega
+    simp only [h, dif_pos, LoopSim]
+    refine ⟨_, rfl, rfl, ?_⟩
+    apply iterAt_of_gets <;> simp [h1, h3, h5, tagEnd]
+  | succ n ih =>
+    intro j fuel e hn hf hsz hI
+    obtain ⟨f, rfl⟩ : ∃ f, fuel = f + 2 := ⟨fuel - 2, by omega⟩
+    obtain ⟨h1, h2, h3, h4, h5⟩ := iterAt_get_i _ _ hI
+    rw [exec1, advance_body e pj.tape f j hI hsz, advanceLoopG]
+    by_cases h : j.off ≥ j.lim
+    · simp only [h, dif_pos, LoopSim]
+      refine ⟨_, rfl, rfl, ?_⟩
+      apply iterAt_of_gets <;> simp [h1, h3, h5, tagEnd]
+    · have hr : pj.tape[j.off]? = some (pj.tape[j.off]'(by omega)) := by simp
+      simp only [h, dif_neg, not_false_eq_true, Iter.rdT, rd, hr, Res.bind_ok]
+      generalize pj.tape[j.off] = v
+      by_cases hn' : tagOf v = tagNop
+      · by_cases hz : payloadOf v = 0
+        · simp only [hn', hz, if_true, beq_self_eq_true, LoopSim]
+          exact ⟨_, rfl, rfl, iterAt_setIter_i _ _⟩
+        · have hz' := payload_toNat_ne v hz
+          simp only [hn', hz, if_true, if_false, beq_self_eq_true, beq_iff_eq]
+          refine ih _ (f + 1) _ (by simp only; omega) (by omega) hsz ?_
+          apply iterAt_of_gets <;> simp [h2, h5]
+          omega
+      · have hb : (tagOf v == tagNop) = false := by simp [hn']
+        simp only [hn', hb, if_false, LoopSim]
+        refine ⟨_, rfl, rfl, ?_, payload_lt v⟩
+        apply iterAt_of_gets <;> simp [h2, h5]
+
+/-- the statements after the loop of `Advance`, on any store -/
+theorem advance_tail (s : St) (j : Iter) (f : Nat) (hI : iterAt s.env "i" = some j) (hcur : j.cur.toNat < 2^63) :
+    ∃ s', exec goFuns (f + 1) (afterLoop goIter_Advance.body) s =
+        .ret s' [.u8 (if (j.calcNext false).addNext < 0 then typeNone else tagToType (j.calcNext false).t)] ∧
+      s'.tape = s.tape ∧
+      iterAt s'.env "i" = some (if (j.calcNext false).addNext < 0 then (j.calcNext false).moveToEnd
+        else j.calcNext false) := by
+  simp only [goIter_Advance, afterLoop]
+  rw [exec, call_calcNext_i s j false f hI hcur]
+  simp only []
+  have hI2 := iterAt_setIter_i s.env (j.calcNext false)
+  generalize setIter s.env "i" (j.calcNext false) = e1 at hI2
+  generalize j.calcNext false = j2 at hI2
+  obtain ⟨h1, h2, h3, h4, h5⟩ := iterAt_get_i _ _ hI2
+  by_cases hneg : j2.addNext < 0
+  · simp only [hneg, if_true]
+    refine ⟨⟨setIter e1 "i" j2.moveToEnd, s.tape⟩, ?_, rfl, iterAt_setIter_i _ _⟩
+    simp [h1, h2, h3, h4, h5, hneg, goFuns, goIter_moveToEnd, Env.set, Env.get, setIter, Iter.moveToEnd, tagEnd,
+      typeNone]
+  · simp only [hneg, if_false]
+    refine ⟨⟨e1, s.tape⟩, ?_, rfl, hI2⟩
+    simp [h1, h2, h3, h4, h5, hneg, tagToType]
+
+theorem advance_body_neg (e : Env) (tape : Array UInt64) (fuel : Nat) (o : Int) (lim : Nat) (ho : o < 0)
+    (hoff : e.get "i.off" = some (.int o)) (hlim : e.get "i.lim" = some (.int lim)) :
+    exec goFuns fuel (firstLoop goIter_Advance.body) ⟨e, tape⟩ = .panic := by
+  simp only [goIter_Advance, firstLoop]
+  have h1 : ¬ (lim : Int) ≤ o := by omega
+  have h2 : ¬ 0 ≤ o := by omega
+  simp [hoff, hlim, h1, h2]
+
+theorem advanceG_sim (pj : PJ) (i : Iter) (hl : i.lim ≤ pj.tape.size) (fuel : Nat) (hf : fuelFor i ≤ fuel) :
+    SimT pj.tape (runFun goFuns goIter_Advance fuel { env := envOf "i" i, tape := pj.tape }) (advanceG pj i) := by
+  have hbody : goIter_Advance.body = .assign "i.off" (.bin .add (.v "i.off") (.v "i.addNext")) ::
+      .loop (firstLoop goIter_Advance.body) :: afterLoop goIter_Advance.body := rfl
+  have h1 : exec1 goFuns fuel (.assign "i.off" (.bin .add (.v "i.off") (.v "i.addNext"))) ⟨envOf "i" i, pj.tape⟩ =
+      .normal ⟨(envOf "i" i).set "i.off" (.int ((i.off : Int) + i.addNext)), pj.tape⟩ := by
+    simp [envOf, Env.get]
+  unfold fuelFor at hf
+  obtain ⟨f, rfl⟩ : ∃ f, fuel = f + 2 := ⟨fuel - 2, by omega⟩
+  have key : SimT pj.tape (exec goFuns (f + 2) goIter_Advance.body ⟨envOf "i" i, pj.tape⟩) (advanceG pj i) := by
+    rw [hbody, exec, h1]
+    simp only []
+    unfold advanceG Iter.bump
+    by_cases ho : (i.off : Int) + i.addNext < 0
+    · have hp : exec1 goFuns (f + 2) (.loop (firstLoop goIter_Advance.body))
+          ⟨(envOf "i" i).set "i.off" (.int ((i.off : Int) + i.addNext)), pj.tape⟩ = .panic := by
+        rw [exec1, advance_body_neg _ pj.tape (f + 1) _ i.lim ho (Env.get_set_self _ _ _)
+          (by simp [envOf, Env.get])]
+      rw [exec_cons_final _ _ _ _ _ (by rw [hp]; rfl), hp]
+      simp [ho, SimT]
+    · simp only [ho, if_false, Res.bind_ok]
+      have hI : iterAt ((envOf "i" i).set "i.off" (.int ((i.off : Int) + i.addNext))) "i" =
+          some { i with off := ((i.off : Int) + i.addNext).toNat } := by
+        apply iterAt_of_gets <;> simp [envOf, Env.get]
+        omega
+      have hloop := advance_loop pj i.lim { i with off := ((i.off : Int) + i.addNext).toNat } (f + 2) _
+        (Nat.sub_le _ _) (by omega) hl hI
+      rw [exec]
+      generalize exec1 goFuns (f + 2) (.loop (firstLoop goIter_Advance.body))
+        ⟨(envOf "i" i).set "i.off" (.int ((i.off : Int) + i.addNext)), pj.tape⟩ = out at hloop ⊢
+      cases hg : advanceLoopG pj { i with off := ((i.off : Int) + i.addNext).toNat } with
+      | ok r =>
+        obtain ⟨a, l⟩ := r
+        rw [hg] at hloop
+        cases l with
+        | true =>
+          obtain ⟨s, rfl, hst, hIs, hc⟩ := hloop
+          simp only []
+          obtain ⟨s', hx, hst', hIs'⟩ := advance_tail s a (f + 1) hIs (by omega)
+          rw [hx]
+          simp only [Res.bind_ok, Bool.not_true, Bool.false_eq_true, if_false]
+          by_cases hneg : (a.calcNext false).addNext < 0
+          · simp only [hneg, if_true] at hIs' ⊢
+            exact ⟨s', rfl, by rw [hst', hst], hIs'⟩
+          · simp only [hneg, if_false] at hIs' ⊢
+            exact ⟨s', rfl, by rw [hst', hst], hIs'⟩
+        | false =>
+          obtain ⟨s, rfl, hst, hIs⟩ := hloop
+          simp only [Res.bind_ok, Bool.not_false, if_true, SimT, typeNone]
+          exact ⟨s, rfl, hst, hIs⟩
+      | panic =>
+        rw [hg] at hloop
+        simp only [LoopSim] at hloop
+        subst hloop
+        simp [SimT]
+      | error e => rw [hg] at hloop; exact hloop.elim
+      | diverge => rw [hg] at hloop; exact hloop.elim
+  rw [runFun_final _ _ _ _ key.final]
+  exact key
+
 end SJ.GoIter
